@@ -375,6 +375,14 @@ class _Frame:
                     if b is not None:
                         return b
                     return Kind('any', truthy=t)    # only the truthiness is known
+                if isinstance(e, (ast.Name, ast.Attribute, ast.Subscript)):
+                    # a sized value whose length was compared with 0 has that truthiness
+                    te = txt(e)
+                    for form, sense in (('len(%s) == 0', False), ('len(%s) > 0', True),
+                                        ('len(%s) >= 1', True)):
+                        v = facts.get(form % te)
+                        if v is not None and base(e) is None:
+                            return Kind('any', truthy=(v == sense))
             return base(e)
         return AbsEval(assume, self.ev.const_expr)
 
@@ -635,8 +643,14 @@ class _Frame:
                         cond.func.id == 'bool' and len(cond.args) == 1 and not cond.keywords:
                     cond = cond.args[0]     # as a condition, bool(x) is x
                 lkey = None
+                lsense = True
                 if isinstance(node.ast, ast.Name) and env.get(node.ast.id) is not None:
                     lkey = '$local:' + node.ast.id
+                else:
+                    # ``len(x) == 0`` / ``len(x) > 0`` on a local decide its truth value too
+                    sz = _len_test(node.ast)
+                    if sz is not None and env.get(sz[0]) is not None:
+                        lkey, lsense = '$local:' + sz[0], sz[1]
                 self.exc_edges(node, env, events2, visits, raised, hcls)
                 exit_lab = visits.get('$exit:%d' % node.id)
                 for (succ, lab) in node.succ:
@@ -648,6 +662,8 @@ class _Frame:
                     # a local that was tested before keeps the truth value it had then,
                     # whatever happened since to the state its defining expression reads
                     known = (env.get(FACTS) or {}).get(lkey) if lkey else None
+                    if known is not None and not lsense:
+                        known = not known
                     if known is not None and self.evaluator(env).truth(cond) is None:
                         if known != want:
                             continue
@@ -685,7 +701,7 @@ class _Frame:
                             continue
                         if lkey:
                             facts = dict(env3.get(FACTS) or {})
-                            facts[lkey] = want
+                            facts[lkey] = want if lsense else (not want)
                             env3 = dict(env3)
                             env3[FACTS] = facts
                         self.walk(succ, env3, ev2, visits, pending, hcls)
@@ -972,6 +988,22 @@ class _Frame:
                                      env, events, node)
         elif isinstance(target, ast.Starred):
             self.bind_target(target.value, value, env, events, node)
+        elif isinstance(target, ast.Subscript) and isinstance(target.value, ast.Name) and \
+                isinstance(env.get(target.value.id), ast.Dict) and \
+                isinstance(target.slice, ast.Constant) and \
+                all(isinstance(k_, ast.Constant) for k_ in env[target.value.id].keys):
+            # ``d = {...}; d['k'] = v`` on a local dict display is the display with k: v
+            # (a dict built in steps and a dict literal are one term)
+            cur = env[target.value.id]
+            keys, values = list(cur.keys), list(cur.values)
+            for i_, k_ in enumerate(keys):
+                if k_.value == target.slice.value:
+                    values[i_] = value
+                    break
+            else:
+                keys.append(target.slice)
+                values.append(value)
+            env[target.value.id] = ast.Dict(keys=keys, values=values)
         else:
             tgt = subst_target(target, env)
             if events is not None:
@@ -1146,6 +1178,26 @@ class _Frame:
             return
         raise AnalysisError('statement %s not supported in path enumeration' %
                             type(st).__name__)
+
+
+def _len_test(e):
+    """(name, sense) when e is ``len(name) == 0`` (sense False: the test holds iff name is
+    falsy) or ``len(name) > 0`` / ``len(name) != 0`` / ``len(name) >= 1`` (sense True)."""
+    if isinstance(e, ast.Compare) and len(e.ops) == 1 and isinstance(e.left, ast.Call) and \
+            isinstance(e.left.func, ast.Name) and e.left.func.id == 'len' and \
+            len(e.left.args) == 1 and isinstance(e.left.args[0], ast.Name) and \
+            isinstance(e.comparators[0], ast.Constant):
+        c = e.comparators[0].value
+        op = e.ops[0]
+        if c == 0 and isinstance(op, ast.Eq):
+            return e.left.args[0].id, False
+        if c == 0 and isinstance(op, (ast.NotEq, ast.Gt)):
+            return e.left.args[0].id, True
+        if c == 1 and isinstance(op, ast.GtE):
+            return e.left.args[0].id, True
+        if c == 1 and isinstance(op, ast.Lt):
+            return e.left.args[0].id, False
+    return None
 
 
 def _list_concat(a, b):
